@@ -4,4 +4,5 @@ CONSTANTS
   Algs = {"ES256", "ES384", "RS256", "RS384", "PS256", "PS384", "HMAC256", "HMAC384"}
   PayloadKinds = {"empty", "raw", "large", "nested"}
   MaxAlter = 2
-INVARIANTS TypeOK VerifyExact HonestVerifies AlteredNeverVerifies AlterationsDiffer CoversAll GenEmit
+  OptsKeys = {"P-256", "P-384", "P-521", "RSA-2048", "RSA-3072"}
+INVARIANTS TypeOK VerifyExact HonestVerifies AlteredNeverVerifies AlterationsDiffer CoversAll SignedOrRefused OptsVerify GenEmit
